@@ -64,6 +64,8 @@ func vh_C13_L4_rejected_has_no_effect() {
 	a.setState(uint32(vPick(8)))
 	ctype := vChecksumKinds[vPick(len(vChecksumKinds))]
 	raw := vChecksumPacket(ctype, 2)
+	// whatever the previous packet left behind in the per-packet context
+	a.immediateAckTriggered, a.delayedAckTriggered = nondetBool(), nondetBool()
 	state, cum, ackPt, nextTSN := a.getState(), a.peerLastTSN(), a.cumulativeTSNAckPoint, a.myNextTSN
 	err := a.handleInbound(raw)
 	vassert(err == nil, "a bad packet does not stop the read loop")
@@ -289,3 +291,7 @@ func vh_C13_L3_learned_from_init_ack() {
 	}
 	vcover("end")
 }
+
+// C13.L4b: a handshake chunk that is discarded because of the association's state changes
+// nothing about the checksum negotiation either (= C04.L2).
+func vh_C13_L4_discarded_handshake_chunk_changes_nothing() { vh_C04_L2_stale_chunks_ignored() }
